@@ -850,7 +850,7 @@ def collapse(ds):
         for g in sorted(cand, key=repr):
             if n >= 16:
                 break
-            if g in keep or g.kind != "cmp" or vk in g.vars or g.key[0] == vk:
+            if g in keep or g.kind != "cmp" or g is sf or (g.key[0] == vk and isinstance(g.key[2], int)):
                 continue
             if all((g in d) or d_holds(d, g.op, g.key[0], g.key[2]) for d in rest):
                 keep.add(Imp(sf.l, "!=", cv, g))
@@ -1119,6 +1119,14 @@ class Analysis:
                     lo, hi, ne = d_bounds(new, f.key[0])
                     if _sat(lo, hi, ne, g.relop, g.c):
                         rel = g.fact
+                        if rel.kind == "cmp" and sk(rel.l).get("k") == "Call" and sk(rel.l).get("fn") in COMPARERS:
+                            # the comparison a flag stood for, remembered with what its buffers held (as on a direct branch)
+                            new.add(Hist(rel))
+                            for a in sk(rel.l).get("a", ()):
+                                bk = pp(sk(a))
+                                for h in d:
+                                    if h.kind == "cmp" and h.op == "==" and h.key[0] == bk and sk(h.r).get("k") == "Call":
+                                        new.add(Hist(h))
                         if self.E.hist_roots:
                             # what a flag stood for was established when the flag was computed: remember it like a
                             # branch on the comparison itself would have
@@ -1231,6 +1239,115 @@ class Analysis:
         memo[hb.id] = [Fact(">=", v, mkint(c0)), Fact("<=", v, mkint(mx))]
         return memo[hb.id]
 
+    def _lockstep_loop_facts(self, hb):
+        """`for (left = N, i = c0; left > 0; left--, i++)`: the countdown and the index move in lockstep in the loop's
+        only latch block, so i + left == c0 + N at the head, and inside the body (left > 0) c0 <= i < c0 + N.  N must
+        be an expression over variables the loop does not write."""
+        memo = self.__dict__.setdefault("_lsf", {})
+        if hb.id in memo:
+            return memo[hb.id]
+        memo[hb.id] = []
+        f = self.f
+        c = sk(hb.term["cond"]) if hb.term and hb.term.get("cond") is not None else None
+        if c is None:
+            return []
+        bv = None
+        if c.get("k") == "Ref":
+            bv = c
+        elif c.get("k") == "Bin" and c["op"] in (">", "!=") and cval(sk(c["a"][1])) == 0 and sk(c["a"][0]).get("k") == "Ref":
+            bv = sk(c["a"][0])
+        elif c.get("k") == "Bin" and c["op"] == ">=" and cval(sk(c["a"][1])) == 1 and sk(c["a"][0]).get("k") == "Ref":
+            bv = sk(c["a"][0])
+        if bv is None or bv["ref"].get("rk") != "local" or (bv.get("t") or {}).get("k") != "int":
+            return []
+        if c.get("k") != "Bin" or c["op"] != ">":
+            if (bv.get("t") or {}).get("signed") is not False:
+                return []           # `left != 0` / `left` only counts down to the exit for an unsigned counter
+        from . import fieldinv
+        body = fieldinv._loops(f).get(hb.id)
+        if body is None:
+            return []
+        latch = [p for p in hb.preds if p in body]
+        if len(latch) != 1:
+            return []
+        bid_ = bv["ref"]["id"]
+        writes = {}
+        for blk in f.blocks.values():
+            for e in blk.elems:
+                for x in f.own_nodes(e):
+                    k = x.get("k")
+                    t = None
+                    if k == "Bin" and x["op"] in ASSIGN_OPS:
+                        t = sk(x["a"][0])
+                    elif k == "Un" and x["op"] in ("post++", "post--", "pre++", "pre--", "&"):
+                        t = sk(x["a"][0])
+                    if t is not None and t.get("k") == "Ref" and t["ref"].get("rk") in ("local", "param"):
+                        writes.setdefault(t["ref"]["id"], []).append((blk.id, x, t))
+        def step(x):
+            if x.get("k") == "Un" and x["op"] in ("post++", "pre++"):
+                return 1
+            if x.get("k") == "Un" and x["op"] in ("post--", "pre--"):
+                return -1
+            if x.get("k") == "Bin" and x["op"] in ("+=", "-=") and cval(sk(x["a"][1])) == 1:
+                return 1 if x["op"] == "+=" else -1
+            return None
+        if any(x.get("k") == "Un" and x["op"] == "&" for _, x, _ in writes.get(bid_, ())):
+            return []
+        inner = [b2 for h2, b2 in fieldinv._loops(f).items() if h2 != hb.id and h2 in body]
+        f.dominators()
+
+        def once_per_cycle(w):
+            # the block lies on every way round the loop (it dominates the only latch) and in no inner loop
+            return w in body and f.dominates(w, latch[0]) and not any(w in b2 for b2 in inner)
+        inb = [(w, x, t) for w, x, t in writes.get(bid_, ()) if w in body]
+        if len(inb) != 1 or not once_per_cycle(inb[0][0]) or step(inb[0][1]) != -1:
+            return []
+        modified = {vid for vid, ws in writes.items() if any(w in body for w, _, _ in ws)}
+        # entry values
+        def last_write(pred, vid):
+            last = None
+            for e in f.blocks[pred].elems:
+                for x in f.own_nodes(e):
+                    if x.get("k") == "Bin" and x["op"] in ASSIGN_OPS and sk(x["a"][0]).get("k") == "Ref" and sk(x["a"][0])["ref"]["id"] == vid:
+                        last = x["a"][1] if x["op"] == "=" else False
+                    elif x.get("k") == "Un" and x["op"] in ("post++", "post--", "pre++", "pre--") and sk(x["a"][0]).get("k") == "Ref" \
+                            and sk(x["a"][0])["ref"]["id"] == vid:
+                        last = False
+                    elif x.get("k") == "Decl":
+                        for d_ in x["decls"]:
+                            if d_["ref"]["id"] == vid and d_.get("init") is not None:
+                                last = d_["init"]
+            return last
+        outer = [p for p in hb.preds if p not in body]
+        if len(outer) != 1:
+            return []
+        n_expr = last_write(outer[0], bid_)
+        if not n_expr or not is_pure(sk(n_expr)):
+            return []
+        if any(y.get("k") == "Ref" and y["ref"].get("id") in modified for y in walk(n_expr)):
+            return []
+        out = []
+        for vid, ws in writes.items():
+            if vid == bid_:
+                continue
+            wb = [(w, x, t) for w, x, t in ws if w in body]
+            if len(wb) != 1 or not once_per_cycle(wb[0][0]) or step(wb[0][1]) != 1:
+                continue
+            if any(x.get("k") == "Un" and x["op"] == "&" for _, x, _ in ws):
+                continue
+            a0 = last_write(outer[0], vid)
+            if not a0 or cval(sk(a0)) is None:
+                continue
+            av = wb[0][2]
+            if (av.get("t") or {}).get("k") != "int":
+                continue
+            c0 = cval(sk(a0))
+            hi = sk(n_expr) if c0 == 0 else {"k": "Bin", "op": "+", "t": sk(n_expr).get("t") or INT_T, "a": [sk(n_expr), mkint(c0)]}
+            out.append(Fact(">=", av, mkint(c0)))
+            out.append(Fact("<", av, hi))
+        memo[hb.id] = out
+        return out
+
     def _cond_joins(self):
         """Blocks in which a conditional expression other than a MIN is evaluated: the two ways of getting there are
         kept apart until the value has been taken."""
@@ -1331,7 +1448,7 @@ class Analysis:
                     continue
                 ef = self.edge_facts(b, si)
                 if si == 0 and bid in heads:
-                    ef = list(ef) + self._counting_loop_facts(b)
+                    ef = list(ef) + self._counting_loop_facts(b) + self._lockstep_loop_facts(b)
                 su = self.unsigned_compare(b, si)
                 eds = set()
                 for d in out:
